@@ -104,4 +104,161 @@ def opFragEnc (args : List String) (impl : String) : Verdict :=
   | [_, b, bs, rs, cor] => opEnc [b, bs, "preMem", "sync", "val", rs, cor] impl
   | _ => bad "fragenc"
 
+/-! ## fault enumeration (C10) -/
+
+/-- one io call of an operation: object, label (as the harness logs it), item it belongs to -/
+structure Ev where
+  obj : String
+  label : String
+  /-- `P node` / `L chunk` / none -/
+  item : Option (Bool × Nat) := none
+
+def validTrace (withData : Bool) (tree : Tree) (filled : Nat) : Nat → Nat → Ranges → List Ev
+  | 0, _, _ => []
+  | fuel + 1, shifted, ranges =>
+    if ranges.isEmpty then [] else
+    let node := Node.subBs shifted tree.bs
+    let (l, m, r) := tree.leafByteRanges3 node
+    let rd (a b : Nat) : List Ev := if withData then [⟨"data", s!"read_at_{a}_{b - a}", none⟩] else []
+    if !tree.isRelevant node then rd l r
+    else
+      let (lr, rr) := Ranges.splitNode ranges node
+      [⟨"ob", s!"load_{node}", none⟩] ++
+      (if Node.isLeaf shifted then
+        (if !lr.isEmpty then rd l m else []) ++ (if !rr.isEmpty then rd m r else [])
+      else
+        match Node.leftChild shifted, Node.rightDescendant shifted filled with
+        | some lc, some rc => validTrace withData tree filled fuel lc lr ++ validTrace withData tree filled fuel rc rr
+        | _, _ => [])
+
+/-- the io-call skeleton of an operation on an intact store -/
+def opTrace (name : String) (d : List UInt8) (bs : Nat) (kind : StoreKind) (ranges : Ranges) : Option (List Ev) :=
+  let tree : Tree := ⟨d.length, bs⟩
+  let tr := Ranges.truncate ranges tree.size
+  let st : Store HB := { kind, root := [], tree, data := [] }
+  match name with
+  | "encv-sync" | "encp-sync" | "encv-fsm" | "encp-fsm" =>
+    if name == "encv-sync" && ranges.isEmpty then some [] else
+    (tree.prePartialChunks tr 0).map fun plan => plan.flatMap fun c =>
+      match c with
+      | .parent node _ _ _ _ => [⟨"ob", s!"load_{node}", some (true, node)⟩, ⟨"w", "write_64", some (true, node)⟩]
+      | .leaf start size isRoot rs =>
+        let buf := (d.drop (start * 1024)).take size
+        let n := if !Ranges.isAll rs then (encodeSelectedRec hf recFuel start buf isRoot rs bs true).2.length else size
+        [⟨"data", s!"read_at_{start * 1024}_{size}", some (false, start)⟩, ⟨"w", s!"write_{n}", some (false, start)⟩]
+  | "mixed" =>
+    if ranges.isEmpty then some [⟨"s", "send_Size", none⟩, ⟨"s", "send_Done", none⟩] else
+    (tree.prePartialChunks tr 0).map fun plan =>
+      [⟨"s", "send_Size", none⟩] ++ (plan.flatMap fun c =>
+        match c with
+        | .parent node _ _ _ _ => [⟨"ob", s!"load_{node}", none⟩, ⟨"s", s!"send_P{node}", none⟩]
+        | .leaf start size isRoot rs =>
+          let buf := (d.drop (start * 1024)).take size
+          [⟨"data", s!"read_at_{start * 1024}_{size}", none⟩] ++
+          (if !Ranges.isAll rs then
+            (traverseSelectedRec hf recFuel start buf isRoot rs bs true).2.map fun it =>
+              match it with
+              | .parent n _ _ => (⟨"s", s!"send_P{n}", none⟩ : Ev)
+              | .leaf off _ => ⟨"s", s!"send_L{off / 1024}", none⟩
+          else [⟨"s", s!"send_L{start}", none⟩])) ++ [⟨"s", "send_Done", none⟩]
+  | "decr-sync" | "decr-fsm" =>
+    (tree.responseChunks tr).map fun plan => plan.flatMap fun c =>
+      match c with
+      | .parent node _ _ _ _ =>
+        [⟨"r", "read_64", some (true, node)⟩] ++ (if tree.isRelevant node && kind != .empty then [(⟨"ob", s!"save_{node}", none⟩ : Ev)]
+          else if tree.isRelevant node then [⟨"ob", s!"save_{node}", none⟩] else [])
+      | .leaf start size _ _ =>
+        [⟨"r", s!"read_{size}", some (false, start)⟩, ⟨"t", s!"write_at_{start * 1024}_{size}", none⟩]
+  | "ob-sync" | "ob-fsm" =>
+    some (tree.postOrderChunks.flatMap fun c =>
+      match c with
+      | .parent node _ _ _ _ => [(⟨"ob", s!"save_{node}", none⟩ : Ev)]
+      | .leaf _ size _ _ => [⟨"data", s!"read_{size}", none⟩])
+  | "obpo-sync" | "obpo-fsm" =>
+    some (tree.postOrderChunks.flatMap fun c =>
+      match c with
+      | .parent .. => [(⟨"w", "write_32", none⟩ : Ev), ⟨"w", "write_32", none⟩]
+      | .leaf _ size _ _ => [⟨"data", s!"read_{size}", none⟩])
+  | "copy-sync" | "copy-fsm" =>
+    some (tree.preOrderNodesIter.flatMap fun node =>
+      [(⟨"from", s!"load_{node}", none⟩ : Ev)] ++ (if (st.slot node).isSome then [(⟨"to", s!"save_{node}", none⟩ : Ev)] else []))
+  | "valid-sync" | "valid-fsm" | "validob-sync" | "validob-fsm" =>
+    let withData := name.startsWith "valid-"
+    if tree.blocks == 1 then some (if withData then [⟨"data", s!"read_at_0_{tree.size}", none⟩] else [])
+    else
+      let (root, filled) := tree.shifted
+      some (validTrace withData tree filled 65 root tr)
+  | _ => none
+
+/-- objects of an operation in the order the harness lists them -/
+def opObjs (name : String) : List String :=
+  if name.startsWith "enc" then ["data", "ob", "w"]
+  else if name == "mixed" then ["data", "ob", "s"]
+  else if name.startsWith "decr" then ["r", "t", "ob"]
+  else if name.startsWith "ob-" then ["data", "ob"]
+  else if name.startsWith "obpo" then ["data", "w"]
+  else if name.startsWith "copy" then ["from", "to"]
+  else ["ob", "data"]
+
+/-- what a fault of `kind` at event `e` must be reported as -/
+def expectFault (name : String) (e : Ev) (kind : String) : String :=
+  let io := s!"Io({kind}*)"
+  if (name == "encv-fsm" || name == "encp-fsm") && e.obj == "w" && kind == "ConnectionReset" then
+    match e.item with
+    | some (true, n) => s!"ParentWrite({n})"
+    | some (false, c) => s!"LeafWrite({c})"
+    | none => io
+  else if name == "mixed" && e.obj == "s" then "SendErr"
+  else if name.startsWith "decr" && e.obj == "r" && kind == "UnexpectedEof" then
+    match e.item with
+    | some (true, n) => s!"ParentNotFound({n})"
+    | some (false, c) => s!"LeafNotFound({c})"
+    | none => io
+  else io
+
+/-- `faults opspec stride`: the whole expected report is computed from the call skeleton -/
+def opFaults (args : List String) (impl : String) : Verdict :=
+  match args with
+  | [spec, stride] =>
+    match spec.splitOn "/", stride.toNat? with
+    | [name, b, bs, kind, rs], some stride =>
+      match blob b, bs.toNat?, storeKind? kind, parseNatList rs with
+      | some d, some bs, some kind, some ranges =>
+        match opTrace name d bs kind ranges with
+        | none => bad "faults op"
+        | some tr =>
+          let objs := opObjs name
+          let counts := ",".intercalate (objs.map fun o => s!"{o}:{(tr.filter (·.obj == o)).length}")
+          let head := s!"Ok N={counts}"
+          let kinds := ["Other", "UnexpectedEof", "ConnectionReset", "WriteZero"]
+          let lines := objs.flatMap fun o =>
+            let evs := tr.filter (·.obj == o)
+            (evs.zipIdx.filter fun (_, k) => k % (max stride 1) == 0).map fun (e, k) =>
+              s!"{o}@{k}[{e.label}] " ++ " ".intercalate (kinds.map fun kd => s!"{kd}={expectFault name e kd}/a0/p1")
+          let m := " # ".intercalate (head :: lines)
+          -- spec verdict on the implementation's report, clause by clause (independent of the skeleton)
+          let parts := impl.splitOn " # "
+          let sf : Option String :=
+            (parts.drop 1).findSome? fun part =>
+              ((part.splitOn " ").drop 1).findSome? fun tok =>
+                match tok.splitOn "=" with
+                | [kd, rest] =>
+                  match rest.splitOn "/" with
+                  | [res, a, p] =>
+                    if res == "Ok" then some s!"{part.take 30}: {kd} fault swallowed (Ok)"
+                    else if res.startsWith "panic" then some s!"{part.take 30}: panic"
+                    else if res.contains "HashMismatch" then some s!"{part.take 30}: fault reported as hash mismatch"
+                    else if a != "a0" then some s!"{part.take 30}: further calls on the failed object"
+                    else if p != "p1" then some s!"{part.take 30}: output is not a prefix of the fault-free run"
+                    else if !(res == s!"Io({kd}*)" || res.startsWith "ParentWrite" || res.startsWith "LeafWrite"
+                              || res.startsWith "ParentNotFound" || res.startsWith "LeafNotFound" || res == "SendErr") then
+                      some s!"{part.take 30}: {kd} fault reported as {res}"
+                    else none
+                  | _ => some "malformed"
+                | _ => some "malformed"
+          { model := m, specFail := sf, nontrivial := tr.length > 2 }
+      | _, _, _, _ => bad "faults"
+    | _, _ => bad "faults"
+  | _ => bad "faults"
+
 end Bao.Ops
